@@ -348,8 +348,8 @@ def run(ck: core.Check):
     try:
         drv = core.Driver()
         known_streams(drv, ck, workdir)
-        n_total = 480 if quick else 6400
-        maxnodes = 9 if quick else 16
+        n_total = 1920 if quick else 9600
+        maxnodes = 14 if quick else 22
         nshards = par.NPROC * (1 if quick else 2)
         jobs = [(ck.rng.randrange(1 << 60), n_total // nshards, maxnodes, not quick, workdir) for _ in range(nshards)]
         for r in par.pmap(worker, jobs):
